@@ -309,6 +309,15 @@ func normSpecJSON(s *rspec.Spec) string {
 			}
 			js := func(d rspec.LinuxDeviceCgroup) string { b, _ := json.Marshal(d); return string(b) }
 			sort.Slice(r.Devices, func(i, j int) bool { return js(r.Devices[i]) < js(r.Devices[j]) })
+			// the same rule twice (a device removed and added again with the same numbers) allows
+			// exactly what the rule allows once
+			var uniq []rspec.LinuxDeviceCgroup
+			for i, d := range r.Devices {
+				if i == 0 || js(d) != js(r.Devices[i-1]) {
+					uniq = append(uniq, d)
+				}
+			}
+			r.Devices = uniq
 			sort.Slice(r.HugepageLimits, func(i, j int) bool { return r.HugepageLimits[i].Pagesize < r.HugepageLimits[j].Pagesize })
 		}
 	}
